@@ -100,6 +100,9 @@ func (r *Reader) StrLen() (int, error) {
 	if n < 0 {
 		return 0, errors.Errorf("size %d is invalid", n)
 	}
+	if c := verifStrCap(); c > 0 && n > c {
+		return 0, errors.Errorf("size %d is over verification cap %d", n, c)
+	}
 	if n > maxStrSize {
 		// Memory for the string is allocated before reading it, so
 		// corrupted length should not be trusted blindly.
